@@ -832,12 +832,16 @@ MAIN = {
     "C06": dict(
         mc=dict(quick=[mc("MC_Store.cfg", "store_txn")], thorough=[mc("MC_Store.cfg", "store_txn_3ids", {"Ids": "{1, 2, 3}", "MaxBuilds": "2", "Toks": "{\"a\"}"}, timeout=600),
                                                                   mc("MC_Metric.cfg", "metric")]),
-        traces=dict(quick=[dict(profile="store", jobs=8, count=60, seed_off=7)],
-                    thorough=[dict(profile="store", jobs=16, count=900, seed_off=7), dict(profile="multi", jobs=4, count=300, seed_off=100)]),
+        traces=dict(quick=[dict(profile="store", jobs=6, count=60, seed_off=7), dict(profile="metric", jobs=2, count=40, seed_off=30)],
+                    thorough=[dict(profile="store", jobs=16, count=900, seed_off=7), dict(profile="multi", jobs=4, count=300, seed_off=100),
+                              dict(profile="metric", jobs=4, count=300, seed_off=30)]),
         model_replay=dict(quick=dict(num=150, max=120), thorough=dict(num=3000, max=2500)),
         distinct=distinct_events, sample_event="Del",
     ),
     "C07": dict(
+        # "...hence with the same items, forest and query answers": what opening and observing the indexes says after each
+        # commit of this driver (C06/C08 conjuncts) counts too, not only the byte comparison
+        also=lambda prop, conj: prop == "C06" or (prop == "C08" and conj.startswith("reader_after_")),
         mc=dict(quick=[mc("MC_Multi.cfg", "multi")], thorough=[mc("MC_Multi.cfg", "multi_2toks", {"Toks": "{\"a\", \"b\"}"}, timeout=1800)]),
         traces=dict(quick=[dict(profile="multi", jobs=6, count=45), dict(family="neighbours", jobs=4, count=80, seed_off=70)],
                     thorough=[dict(profile="multi", jobs=16, count=700), dict(family="neighbours", jobs=8, count=1500, seed_off=70)]),
@@ -927,7 +931,7 @@ MAIN.update({
         mc=dict(quick=[mc("MC_Forest.cfg", "cancel_txn", {"WithCancel": "TRUE", "WithTxn": "TRUE", "Ids": "{1, 2, 3}", "Toks": "{\"a\"}"})],
                 thorough=[mc("MC_Forest.cfg", "cancel_txn_2toks", {"WithCancel": "TRUE", "WithTxn": "TRUE"}, timeout=700)]),
         traces=dict(quick=[dict(family="cancel", jobs=6, count=2, threads=[1, 1, 1, 4, 1, 2]), dict(family="faults", jobs=2, count=1, hist_per_count=10, seed_off=50)],
-                    thorough=[dict(family="cancel", jobs=12, count=8, threads=[1, 1, 4, 1, 2, 16]), dict(family="faults", jobs=4, count=4, hist_per_count=10, seed_off=50)]),
+                    thorough=[dict(family="cancel", jobs=12, count=4, threads=[1, 1, 4, 1, 2, 16]), dict(family="faults", jobs=4, count=4, hist_per_count=10, seed_off=50)]),
         distinct=distinct_events, sample_event="Build",
         also=lambda prop, conj: prop in ("C01", "C02", "C08") or (prop == "C14" and conj.startswith("build_failed")),
         level="fault_enumeration",
